@@ -148,6 +148,7 @@ type rig struct {
 	events []eventRec
 	closed bool
 	coarse bool // the resource has an equivalence under which everything is a duplicate
+	stuck  bool // the random source always reads zeros
 }
 
 // lowEntropy is a random source that often repeats itself: half of its reads are all zero bytes, so generated id
@@ -164,11 +165,27 @@ func (l lowEntropy) Read(p []byte) (int, error) {
 	return l.r.Read(p)
 }
 
+type stuckReader struct{}
+
+func (stuckReader) Read(p []byte) (int, error) {
+	for i := range p {
+		p[i] = 0
+	}
+	return len(p), nil
+}
+
 func newRig(r *vk.Run, model *sm.Model, initial sm.State, rng *vk.Rand) *rig {
 	g := &rig{r: r, model: model, state: initial}
 	var src io.Reader = rng.Fork()
-	if rng.Bool() {
+	switch rng.Intn(6) {
+	case 0, 1, 2:
 		src = lowEntropy{rng.Fork()}
+	case 3:
+		// a source that is stuck: every generated candidate of a given length is the same, so the n-th generated id
+		// needs n attempts and the 11th generation runs out of attempts (Aborted, nothing changed)
+		src = stuckReader{}
+		g.stuck = true
+		r.Count("rigs-with-a-stuck-random-source", 1)
 	}
 	opts := append(model.ResourceOptions(), resource.WithClock(&fakeClock{}), resource.WithRNG(src))
 	if rng.Chance(1, 4) {
@@ -601,8 +618,12 @@ func randomSequences(r *vk.Run) {
 			init["a"] = sm.Item{Msg: vk.GenMessage(rng, tc.info.Zero, gen)}
 		}
 		g := newRig(r, model, init, rng)
+		ids := ids
+		if g.stuck && !isValue {
+			ids = []string{"", "", "", "a", "b"} // mostly generated ids, so that the attempts run out
+		}
 		var trace []string
-		trace = append(trace, fmt.Sprintf("type=%s config=%+v init=%s", tc.name, cfg, init.Render()))
+		trace = append(trace, fmt.Sprintf("type=%s config=%+v init=%s stuck-rng=%v", tc.name, cfg, init.Render(), g.stuck))
 		var genIDs []string
 		mask := func() []string {
 			n := rng.Intn(3)
